@@ -103,7 +103,8 @@ def tree_versions(r):
     return out
 
 # ------------------------------------------------------------------ random trees
-GARBAGE = ['foo', '1.2.3.4', '~1.y', 'latest', '1.2beta4', '>=', 'a||b'[:1], '=>1.0', '1.2.3.x', '^^1']
+# tokens no sub-parser accepts and that cannot glue to a neighbour (a bare operator would: `>= 1.2.3` is `>=1.2.3`)
+GARBAGE = ['foo', '1.2.3.4', '~1.y', 'latest', '1.2beta4', 'a', '=>1.0', '1.2.3.x', '^^1']
 def random_partial(rng, nums, tags=TAGS_R, builds=((), ('b7',), ('5', 'x'))):
     k = rng.choice([1, 2, 3, 3, 3])
     xs = [rng.choice(nums + ['x']) if rng.random() < 0.25 else rng.choice(nums) for _ in range(k)]
